@@ -450,6 +450,7 @@ func corr(seed uint64, n int, exh int) {
 		emitR("P", pb, srs, runPlainReader(pb, srs))
 	}
 	corrExt(hx.NewRng(seed^0x13e), n, &id)
+	corrExt2(hx.NewRng(seed^0x13b2), n, &id)
 	out.Flush()
 }
 
@@ -512,7 +513,12 @@ func search(seed uint64, n int, exh int) {
 	}
 	enumStrings(escAlphabet, exh, byteCheck)
 	r := hx.NewRng(seed ^ 0xabcdef)
+	r2 := hx.NewRng(seed ^ 0x13b2b)
+	if ueHangs() {
+		fail("bits.EBSPWriter.WriteExpGolomb", "does-not-terminate", "value=ffffffffffffffff", "no return within 10 s")
+	}
 	for i := 0; i < n; i++ {
+		evals += searchExt2(r2)
 		byteCheck(r.Bytes(r.Range(0, 64), escAlphabet))
 		// op level round trip
 		all := genWops(r)
